@@ -683,6 +683,57 @@ def batching_rows(prog, hc, r3, r4, tier="quick"):
     r3.floor("batching scenarios", n, 40)
 
 
+def duplicate_key_rows(prog, rule):
+    """C16: a key the caller lists twice is asked for twice, as Client does (`get a b a`): the per-server batch of a
+    multi-key read holds every occurrence.  (For C12 a de-duplicating HashClient would be fine: each key still goes to
+    its own server; it is the equality with Client's commands that needs the occurrences.)"""
+    from .colls import new_object
+    from .rules_C05 import Val, has_top
+
+    hc = prog.cls("HashClient")
+    K = [Opaque("K1"), Opaque("K2"), Opaque("K1")]
+    route = {"K1": "A", "K2": "B"}
+    for mname in ("get_many", "gets_many"):
+        f = prog.method(hc, mname)
+        dom = HashDomain(prog, f, route)
+        dom.scenario_limit = 10 ** 9  # three keys taken at face value: a chunk size far above them does not matter here
+        env = {}
+        for p in f.params:
+            if p.name == "self":
+                continue
+            if p.name == "keys":
+                env["keys"] = TupleV(tuple(K))
+            elif p.kind == "vararg":
+                env[p.name] = TupleV(())
+            elif p.kind == "kwarg":
+                new_object(env, p.name, "dict", DictV(()))
+            elif p.name == "gets":
+                env[p.name] = Const(False)
+            else:
+                env[p.name] = Val("arg:" + p.name)
+        outs = Interp(dom, f.node, prog).run(Env(env))
+        rets = outs.of("ret")
+        what = "HashClient.%s([k1, k2, k1]) with k1->A, k2->B: server A is asked for k1 twice, as Client would send `get k1 ... k1`" % mname
+        if len(rets) != 1 or outs.of("exc") or rets[0][0].get("#imprecise", 0):
+            rule.undecided("HashClient.%s:repeated-key" % mname, what + " -- not one exactly known outcome")
+            continue
+        runs = rets[0][0].get("#runs", ())
+        got = {}
+        vague = False
+        for n_, a_, k_ in runs:
+            if len(a_) >= 4 and isinstance(a_[0], Opaque) and isinstance(a_[3], TupleV):
+                got.setdefault(a_[0].tag[7:], []).extend(x.tag if isinstance(x, Opaque) else "?" for x in a_[3].items)
+            else:
+                vague = vague or any(has_top(x) for x in a_)
+        want = {"A": ["inner:K1", "inner:K1"], "B": ["inner:K2"]}
+        if got == want:
+            rule.ok(what)
+        elif vague:
+            rule.undecided("HashClient.%s:repeated-key" % mname, what + " -- a piece of a runner call is unknown")
+        else:
+            rule.fail("HashClient.%s:repeated-key" % mname, "%s: the batches are %s; a plain Client given the same list sends every occurrence, so the commands on the wire differ" % (what, got), fn=f, node=f.node)
+
+
 def _deletes(runs):
     """The (client, inner key) pairs a list of runner calls deletes - one `delete` per key or one `delete_many` per
     batch alike; None if a call is something else."""
